@@ -72,3 +72,29 @@ Example C09_example :
       (obs_run c09_w_cb c09_w_g connp_new [OpOpen; OpReqData [71;69;84;32;47;32;72;84;84;80;47;49;46;49;13;10;13;10]%N; OpReqData [71]%N; OpReqGap 3])
   = [(6%nat, -1, 0%nat); (0%nat, c_HTP_STREAM_STOP, 5%nat); (0%nat, c_HTP_STREAM_STOP, 0%nat); (2%nat, c_HTP_STREAM_STOP, 0%nat)].
 Proof. vm_compute. reflexivity. Qed.
+
+(* the request direction: DATA means every byte of the chunk was consumed, DATA_OTHER means strictly fewer (for a parser whose body counters are
+   consistent with its state: rq_inv, true of the fresh parser and kept by every data call) *)
+Theorem C09_data_means_all_req : forall cb g data len c c',
+  rq_inv c -> (forall d, data = Some d -> (len <= length d)%nat) ->
+  connp_req_data cb g data len c = (c', c_HTP_STREAM_DATA) -> k_read (c_in c') = len.
+Proof. exact req_data_data_means_all. Qed.
+Print Assumptions C09_data_means_all_req.
+Theorem C09_other_means_less_req : forall cb g data len c c',
+  rq_inv c -> (forall d, data = Some d -> (len <= length d)%nat) ->
+  connp_req_data cb g data len c = (c', c_HTP_STREAM_DATA_OTHER) -> (k_read (c_in c') < len)%nat.
+Proof. exact req_data_other_means_less. Qed.
+Print Assumptions C09_other_means_less_req.
+Theorem C09_req_inv_kept : forall cb g data len c,
+  rq_inv c -> (forall d, data = Some d -> (len <= length d)%nat) -> rq_inv (fst (connp_req_data cb g data len c)).
+Proof. exact req_data_keeps_inv. Qed.
+(* every call returns: the loops of both data entry points never exhaust their fuel (PTermReq / PTermRes) *)
+Require Import Htp.Proof.PTermReq Htp.Proof.PTermRes.
+Theorem C09_req_call_returns : forall cb g data len c k,
+  rq_inv c -> (forall d, data = Some d -> (len <= length d)%nat) -> (c_in_status c = c_HTP_STREAM_CLOSED -> len = 0%nat) ->
+  connp_req_data_fuel cb g (rq_fuel len + k) data len c = connp_req_data cb g data len c.
+Proof. exact req_data_fuel_sufficient. Qed.
+Theorem C09_res_call_returns : forall cb g data len c k,
+  ts_entry_ok len c -> connp_res_data_fuel cb g (rs_res_fuel len + k) data len c = connp_res_data cb g data len c.
+Proof. exact res_data_fuel_sufficient. Qed.
+Print Assumptions C09_res_call_returns.
